@@ -364,7 +364,7 @@ def rule_sib(ctx):
                 k0 = next((i for i in range(min(len(a), len(b))) if a[i] != b[i]), 0)
                 res.violate("%s : i-j-blocks-differ" % fn_key(fn), "the blocks for variable i and variable j differ beyond renaming: `...%s` vs `...%s`" % (a[max(0, k0 - 30):k0 + 40], b[max(0, k0 - 30):k0 + 40]), fn_loc(fn, blocks[1]["ln"]))
         else:
-            res.violate("%s : blocks-not-found" % fn_key(fn), "expected two gradient_fixed maintenance blocks in update, found %d" % len(blocks), fn_loc(fn))
+            res.undecided("%s : blocks-not-found" % fn_key(fn), "expected two gradient_fixed maintenance blocks in update, found %d" % len(blocks), fn_loc(fn))
     # (3) reconstruct_gradient: guard `alpha[X].free_floating()` and the summand `alpha[Y].val()` use the same X
     fn = fns.get("reconstruct_gradient")
     if fn is None:
@@ -478,7 +478,7 @@ def rule_snapshot(ctx):
             rr = next((x for x in walk(reread) if x.get("k") == "MethodCall" and id(x) in order_of), None)
             o_cmp = order_of.get(id(rr)) if rr is not None else None
             if o_let is None or o_cmp is None:
-                res.violate("%s : snapshot-order-unknown:%s" % (key, loc.get("name")), "cannot order the snapshot and its re-read (fail closed)", fn_loc(fn, ifn["ln"]))
+                res.undecided("%s : snapshot-order-unknown:%s" % (key, loc.get("name")), "cannot order the snapshot and its re-read (fail closed)", fn_loc(fn, ifn["ln"]))
                 continue
             w = [e for e in writes if any(("field:%s(" % f) in e.lhs or ("self.%s[" % f) in e.lhs or e.lhs.endswith("self.%s" % f) or ("self.%s." % f) in e.lhs for f in fields)]
             # writes that merely re-wrap the element are recognised by their right-hand side mentioning the element's own value
@@ -615,5 +615,41 @@ def rule_rho(ctx):
     return res.finish(13)
 
 
+def rule_rescale(ctx):
+    """'The decision value of any sample equals sum_i alpha_i*K(x_i, x) - rho computed from the published coefficients':
+    a fit routine that rescales the published alpha and rho after the solver returned (nu-SVC divides both by r) must
+    rescale the pre-combined linear hyperplane too - it was built from the unscaled coefficients."""
+    res = RuleResult("R-C13-rescale", "a fit routine that rescales alpha and rho after solving also rescales the pre-combined separating hyperplane")
+    F = ctx.facts()
+    n = 0
+    for fn in F.all_fns():
+        if fn["d"]["krate"] != "linfa_svm" or fn["d"]["name"] not in ("fit_nu", "fit_c", "fit_one_class", "fit_epsilon"):
+            continue
+        rescaled = set()
+        for x in walk(fn["body"]):
+            if x.get("k") == "AssignOp" and x["op"] in ("/", "*"):
+                t = strip(x["l"])
+                if t.get("k") == "Field" and t["name"] in ("rho", "alpha"):
+                    rescaled.add(t["name"])
+            if x.get("k") == "Assign":
+                t = strip(x["l"])
+                if t.get("k") == "Field" and t["name"] == "alpha" and any(y.get("k") == "Binary" and y["op"] in ("/", "*") for y in walk(x["r"])):
+                    rescaled.add("alpha")
+        if not {"rho", "alpha"} <= rescaled:
+            continue
+        n += 1
+        key = "%s (%s)" % (fn_key(fn), fn_loc(fn).split("/")[-1].split(":")[0])
+        res.instance("%s : rescales alpha and rho" % key)
+        touches = any(x.get("k") == "Field" and x["name"] == "sep_hyperplane" for x in walk(fn["body"]))
+        if touches:
+            res.ok()
+            res.sample({"fn": key, "also": "sep_hyperplane"})
+        else:
+            res.violate("%s : hyperplane-not-rescaled" % key, "alpha and rho are rescaled after the solver returned, but the pre-combined linear hyperplane (built from the unscaled alpha) is left as it was: with a linear kernel the decision value is w.x - rho with w and rho on different scales", fn_loc(fn))
+    if n < 1:
+        res.missing_anchor("the nu-SVC fit routine that rescales alpha and rho by 1/r")
+    return res.finish(1)
+
+
 def rules(tier):
-    return [rule_swap, rule_bound, rule_space, rule_sv, rule_sib, rule_snapshot, rule_rho]
+    return [rule_swap, rule_bound, rule_space, rule_sv, rule_sib, rule_snapshot, rule_rho, rule_rescale]
